@@ -5,7 +5,7 @@ set -u
 PATCH="$1"; PROPS="$2"; SEED="${3:-0}"
 cd /repo || exit 3
 if ! git diff --quiet; then echo "mutant.sh: /repo has uncommitted changes, refusing"; exit 3; fi
-restore() { git -C /repo checkout -- . ; git -C /repo clean -fdq -e target >/dev/null 2>&1; (cd /verif/harness && cargo build --offline -q >/dev/null 2>&1); }
+restore() { git -C /repo checkout -- . ; git -C /repo clean -fdq -e target >/dev/null 2>&1; [ -n "${MUTANT_NO_REBUILD:-}" ] || (cd /verif/harness && cargo build --offline -q >/dev/null 2>&1); }
 trap restore EXIT
 if [[ "$PATCH" == -R:* ]]; then
   c="${PATCH#-R:}"
